@@ -31,11 +31,16 @@ func area(r []Point, i int, p Polygon, bounds []*Bounds) float64 {
 		return 0
 	}
 	highI := len(r) - 1
-	A := (r[highI].X +
-		r[0].X) * (r[0].Y - r[highI].Y)
+	// The X coordinates are taken relative to the first vertex (the Y
+	// differences add up to zero around the ring, so the sum is the same):
+	// with absolute coordinates the products lose the digits of a ring that
+	// is small compared with its distance from the origin.
+	x0 := r[0].X
+	A := ((r[highI].X - x0) +
+		(r[0].X - x0)) * (r[0].Y - r[highI].Y)
 	for ii := 0; ii < highI; ii++ {
-		A += (r[ii].X +
-			r[ii+1].X) * (r[ii+1].Y - r[ii].Y)
+		A += ((r[ii].X - x0) +
+			(r[ii+1].X - x0)) * (r[ii+1].Y - r[ii].Y)
 	}
 	A = math.Abs(A / 2.)
 	// check whether all of the points on this ring are inside
@@ -112,11 +117,12 @@ func signedarea(polygon []Point) float64 {
 		return 0
 	}
 	highI := len(polygon) - 1
-	A := (polygon[highI].X +
-		polygon[0].X) * (polygon[0].Y - polygon[highI].Y)
+	x0 := polygon[0].X // see area
+	A := ((polygon[highI].X - x0) +
+		(polygon[0].X - x0)) * (polygon[0].Y - polygon[highI].Y)
 	for i := 0; i < highI; i++ {
-		A += (polygon[i].X +
-			polygon[i+1].X) * (polygon[i+1].Y - polygon[i].Y)
+		A += ((polygon[i].X - x0) +
+			(polygon[i+1].X - x0)) * (polygon[i+1].Y - polygon[i].Y)
 	}
 	return A / 2.
 }
